@@ -54,6 +54,7 @@ type Shared struct {
 	stubs      sync.Map
 	notes      map[string]int
 	deadline   time.Time
+	atomAbort  int32
 	probeNames sync.Map
 	crossPerWorker int
 	cross      []crossSample
@@ -173,6 +174,34 @@ func (sh *Shared) lookupHandler(fn *ssa.Function) handler {
 		return redirectTo("WithDeadline")
 	case "context.WithValue":
 		return redirectTo("WithValue")
+	case "context.WithCancelCause":
+		return redirectTo("WithCancelCause")
+	case "context.Cause":
+		return redirectTo("Cause")
+	case "context.WithoutCancel":
+		return redirectTo("WithoutCancel")
+	case "context.AfterFunc":
+		return redirectTo("AfterFunc")
+	case "internal/bytealg.IndexByte":
+		return redirectTo("BytealgIndexByte")
+	case "internal/bytealg.IndexByteString":
+		return redirectTo("BytealgIndexByteString")
+	case "internal/bytealg.LastIndexByte":
+		return redirectTo("BytealgLastIndexByte")
+	case "internal/bytealg.LastIndexByteString":
+		return redirectTo("BytealgLastIndexByteString")
+	case "internal/bytealg.Count":
+		return redirectTo("BytealgCount")
+	case "internal/bytealg.CountString":
+		return redirectTo("BytealgCountString")
+	case "internal/bytealg.Equal":
+		return redirectTo("BytealgEqual")
+	case "internal/bytealg.Compare":
+		return redirectTo("BytealgCompare")
+	case "internal/bytealg.Index":
+		return redirectTo("BytealgIndex")
+	case "internal/bytealg.IndexString":
+		return redirectTo("BytealgIndexString")
 	}
 	return nil
 }
@@ -298,6 +327,7 @@ type RunResult struct {
 	SolverQ    int
 	SolverT    time.Duration
 	TimedOut   bool
+	AtomAbort  bool // the run stopped at a content operation on an atom (see RunConfig.AtomFallback)
 	Cross      []crossSample
 	spec       *RunSpec
 }
@@ -336,6 +366,8 @@ func (e *Exec) resetPath() {
 	e.rndSources = nil
 	e.lastNow = nil
 	e.timerOf = map[*Cell]*timerState{}
+	e.pools = nil
+	e.conds = nil
 	e.utf8ok = map[*Term]*Term{}
 	e.atomVCs = nil
 	e.probes = nil
@@ -422,6 +454,12 @@ func (e *Exec) finishedPath(pe pathEnd) {
 	case "unsupported":
 		e.st.Unsupported++
 		e.sh.addNote("unsupported: " + pe.msg)
+		if e.cfg.AtomFallback > 0 && e.cfg.AtomBytes == 0 && strings.Contains(pe.msg, "atom") {
+			// the code inspects the content of a name: the atom abstraction does not apply;
+			// stop and let the caller repeat the run with names as bounded byte strings
+			atomic.StoreInt32(&e.sh.atomAbort, 1)
+			atomic.StoreInt32(&e.sh.stop, 1)
+		}
 	case "unwind":
 		e.st.Unwind++
 		e.sh.addNote("unwinding failure: " + pe.msg)
@@ -553,7 +591,7 @@ func runHarness(prog *ssa.Program, entry *ssa.Function, cfg *RunConfig, handlers
 		go execs[i].worker(&wg)
 	}
 	wg.Wait()
-	res := &RunResult{Cfg: cfg, Wall: time.Since(t0), Notes: sh.notes}
+	res := &RunResult{Cfg: cfg, Wall: time.Since(t0), Notes: sh.notes, AtomAbort: atomic.LoadInt32(&sh.atomAbort) != 0}
 	for _, e := range execs {
 		mergeStats(&res.Stats, &e.st)
 		res.SolverQ += e.solver.Queries
